@@ -57,7 +57,7 @@ theorem clFold_spec (relaxed : Bool) : ∀ (raw es : List Entry) (cl : ClState) 
     Shape relaxed cl' (seen ++ clValues raw) ∧
     es'.filter (fun e => !isCl e) = es.filter (fun e => !isCl e) ++ raw.filter (fun e => !isCl e) ∧
     (cl'.sawBad = false → cl'.needsSanitizing = false → es'.filter isCl = es.filter isCl ++ raw.filter isCl) ∧
-    (relaxed = false → cl.sawBad = false → cl'.sawBad = false) := by
+    (relaxed = false → cl'.sawBad = cl.sawBad ∧ cl'.needsSanitizing = cl.needsSanitizing) := by
   intro raw
   induction raw with
   | nil =>
@@ -79,7 +79,7 @@ theorem clFold_spec (relaxed : Bool) : ∀ (raw es : List Entry) (cl : ClState) 
         refine ⟨by rw [runFields_cons]; exact h1, by simpa using h2, ?_, ?_, ?_⟩
         · rw [h3]; simp [hcl]
         · intro hb hn; rw [h4 hb hn]; simp [hcl]
-        · intro hr hb; exact h5 hr (by rw [(htrue hk).1]; exact hb)
+        · intro hr; rw [(h5 hr).1, (h5 hr).2, (htrue hk).1, (htrue hk).2.1]; exact ⟨rfl, rfl⟩
       · have hk' : (checkField relaxed cl e.value).2 = false := by simpa using hk
         simp only [hk', Bool.false_eq_true, if_false] at h
         cases relaxed with
@@ -203,7 +203,8 @@ theorem finish_plain (cfg : Cfg) (raw es : List Entry) (cl : ClState)
     (hfold : clFold cfg.relaxed [] {} raw = some (es, cl)) (hp : cfg.prohibited = false) (hte : hasTe raw = false) :
     ∃ r, finish cfg es cl = .ok r ∧ contentLength r.entries = clDecision cl ∧ r.conflictingContentLength = cl.sawBad ∧
       r.teUnsupported = false ∧ r.entries.filter (fun e => !isCl e) = raw.filter (fun e => !isCl e) ∧
-      (r.entries.filter isCl).length ≤ 1 := by
+      (r.entries.filter isCl).length ≤ 1 ∧
+      (∀ e ∈ r.entries.filter isCl, ∃ n : Nat, clDecision cl = some (n : Int) ∧ decimalValue (strip e.value) = some n) := by
   obtain ⟨hrun, hshape, hnon, hkept, _⟩ := clFold_spec cfg.relaxed raw [] {} [] es cl (shape_init cfg.relaxed) hfold
   simp only [List.filter_nil, List.nil_append] at hnon hkept hshape
   have hte' : es.any (fun e => e.id == idTransferEncoding) = false := by
@@ -212,9 +213,10 @@ theorem finish_plain (cfg : Cfg) (raw es : List Entry) (cl : ClState)
   simp only [hp, Bool.false_eq_true, if_false, hte']
   by_cases hbad : cl.sawBad = true
   · simp only [hbad, if_true]
-    refine ⟨_, rfl, ?_, rfl, rfl, ?_, ?_⟩
+    refine ⟨_, rfl, ?_, rfl, rfl, ?_, ?_, ?_⟩
     · rw [contentLength_none_of_noCl _ (filter_isCl_delById es)]; simp [clDecision, hbad]
     · rw [filter_nonCl_delById]; exact hnon
+    · rw [filter_isCl_delById]; simp
     · rw [filter_isCl_delById]; simp
   · have hbad' : cl.sawBad = false := by simpa using hbad
     simp only [hbad', Bool.false_eq_true, if_false]
@@ -222,7 +224,7 @@ theorem finish_plain (cfg : Cfg) (raw es : List Entry) (cl : ClState)
     · simp only [hsan, if_true]
       by_cases hg : cl.sawGood = true
       · simp only [hg, if_true]
-        refine ⟨_, rfl, ?_, by simp, rfl, ?_, ?_⟩
+        refine ⟨_, rfl, ?_, by simp, rfl, ?_, ?_, ?_⟩
         · obtain ⟨hv0, hv1⟩ := hshape.1 hg
           obtain ⟨k, hk⟩ := parseOffset_natToDec cl.value.toNat (by omega)
           rw [contentLength_eq]
@@ -235,17 +237,30 @@ theorem finish_plain (cfg : Cfg) (raw es : List Entry) (cl : ClState)
         · rw [List.filter_append, filter_nonCl_delById, hnon]
           simp [isCl]
         · rw [List.filter_append, filter_isCl_delById]; simp [isCl]
+        · obtain ⟨hv0, hv1⟩ := hshape.1 hg
+          obtain ⟨hne, hall, hval⟩ := natToDec_spec cl.value.toNat
+          intro e he
+          rw [List.filter_append, filter_isCl_delById] at he
+          simp only [List.nil_append, isCl, BEq.rfl, List.filter_cons_of_pos, List.filter_nil, List.mem_singleton] at he
+          refine ⟨cl.value.toNat, ?_, ?_⟩
+          · simp only [clDecision, hbad', hg, Bool.false_eq_true, if_false, if_true, Option.some.injEq]; omega
+          · rw [he]
+            have hhl := all_digits_head_last _ hall
+            have := strip_core [] (natToDec cl.value.toNat) [] (by simp) (by simp) hne hhl.1 hhl.2
+            simp only [List.nil_append, List.append_nil] at this
+            rw [this, decimalValue_digits _ hne hall (by rw [hval]; omega), hval]
       · have hg' : cl.sawGood = false := by simpa using hg
         simp only [hg', Bool.false_eq_true, if_false]
-        refine ⟨_, rfl, ?_, by simp, rfl, ?_, ?_⟩
+        refine ⟨_, rfl, ?_, by simp, rfl, ?_, ?_, ?_⟩
         · rw [contentLength_none_of_noCl _ (filter_isCl_delById es)]; simp [clDecision, hbad', hg']
         · rw [filter_nonCl_delById]; exact hnon
+        · rw [filter_isCl_delById]; simp
         · rw [filter_isCl_delById]; simp
     · have hsan' : cl.needsSanitizing = false := by simpa using hsan
       simp only [hsan', Bool.false_eq_true, if_false]
       have hk := hkept hbad' hsan'
       have hsh := hshape.2 hbad' hsan'
-      refine ⟨_, rfl, ?_, by simp, rfl, hnon, ?_⟩
+      refine ⟨_, rfl, ?_, by simp, rfl, hnon, ?_, ?_⟩
       · by_cases hg : cl.sawGood = true
         · obtain ⟨v, hv, _, hval⟩ := hsh.2 hg
           obtain ⟨k, hpo⟩ := parseOffset_of_valueOf cfg.relaxed v cl.value hval
@@ -272,5 +287,51 @@ theorem finish_plain (cfg : Cfg) (raw es : List Entry) (cl : ClState)
           have : (raw.filter isCl).map (·.value) = [] := hsh.1 hg'
           have hnil : raw.filter isCl = [] := by simpa using this
           rw [hnil]; simp
+      · simp only []
+        rw [hk]
+        intro e he
+        by_cases hg : cl.sawGood = true
+        · obtain ⟨v, hv, _, hval⟩ := hsh.2 hg
+          have hraw : (raw.filter isCl).map (·.value) = [v] := hv
+          cases hf : raw.filter isCl with
+          | nil => rw [hf] at he; simp at he
+          | cons e0 t =>
+            rw [hf] at hraw he
+            simp only [List.map_cons, List.cons.injEq, List.map_eq_nil_iff] at hraw
+            rw [hraw.2] at he
+            simp only [List.mem_singleton] at he
+            obtain ⟨hn0, hdec⟩ := valueOf_decimal cfg.relaxed v [] cl.value (by simp) hval
+            refine ⟨cl.value.toNat, ?_, by rw [he, hraw.1]; exact hdec⟩
+            simp only [clDecision, hbad', hg, Bool.false_eq_true, if_false, if_true, Option.some.injEq]; omega
+        · have hg' : cl.sawGood = false := by simpa using hg
+          have : (raw.filter isCl).map (·.value) = [] := hsh.1 hg'
+          have hnil : raw.filter isCl = [] := by simpa using this
+          rw [hnil] at he; simp at he
+
+/-- Transfer-Encoding present, or Content-Length prohibited for this kind of message: no Content-Length is left -/
+theorem finish_ignored (cfg : Cfg) (es : List Entry) (cl : ClState) (r : HdrResult)
+    (hc : cfg.prohibited = true ∨ es.any (fun e => e.id == idTransferEncoding) = true)
+    (h : finish cfg es cl = .ok r) : r.entries.filter isCl = [] ∧ r.conflictingContentLength = false := by
+  unfold finish at h
+  by_cases hp : cfg.prohibited = true
+  · simp only [hp, if_true, Outcome.ok.injEq] at h
+    rw [← h]
+    refine ⟨?_, rfl⟩
+    apply List.filter_eq_nil_iff.mpr
+    intro a ha
+    simp only [delById, List.mem_filter] at ha
+    simp only [isCl]
+    simpa [bne] using ha.1.2
+  · have hte : es.any (fun e => e.id == idTransferEncoding) = true := by
+      rcases hc with h1 | h1
+      · exact absurd h1 hp
+      · exact h1
+    simp only [hp, Bool.false_eq_true, if_false, hte, if_true] at h
+    cases hj : getStrOrList es idTransferEncoding with
+    | none => simp [hj] at h
+    | some rawTe =>
+      simp only [hj, Outcome.ok.injEq] at h
+      rw [← h]
+      exact ⟨filter_isCl_delById es, rfl⟩
 
 end SquidModel.Header
